@@ -13,8 +13,10 @@ def build_parser():
 
 
 def build_pipeline():
+    # network/tcp_server.cpp is #included by the harness (file-local TcpServer::Data is part of the canonical state)
     srcs = (vf.module_sources("http/server", "http/common.cpp", "http/url.cpp", "http/request.cpp", "http/respond.cpp")
-            + vf.module_sources("network", exclude=("network/tcp_server.cpp", "network/uart.cpp", "network/stdio_stream.cpp", "network/dns_request.cpp", "network/net_if.cpp"))
+            + vf.module_sources("network", exclude=("network/tcp_server.cpp", "network/uart.cpp", "network/stdio_stream.cpp",
+                                                    "network/dns_request.cpp", "network/net_if.cpp"))
             + vf.module_sources("event", "util/string.cpp", "util/buffer.cpp", "util/fd.cpp", "util/fs.cpp", "util/pid_file.cpp"))
     return vf.build("C12/pipeline_asan", [HL], srcs, mode="asan", plain_srcs=STUB)
 
@@ -27,37 +29,43 @@ def main(tier, args):
     quick = tier == "quick"
     dl = 55 if quick else 1000
     jobs = []
-    # (2) pipeline half, engine H (fork per evaluation) -- queued first, they run longest
-    depth, maxreq = (6, 3) if quick else (8, 4)
-    for cfg in (("unix", "epoll", 0), ("unix", "select", 0), ("tcp", "epoll", 1)):     # loopback TCP: one request fewer (slower, port churn)
-        jobs.append(("pipe:%s-%s" % cfg[:2], [pipe, cfg[0], cfg[1], str(depth), str(maxreq - cfg[2])]))
+    # 16 processes in total: all start together, so the one (relative) deadline bounds the wall time.
+    # (2) pipeline half, engine H, fork per evaluation.  <=requests per configuration: quick 3/3/2, thorough 4/3/3
+    depth = 6 if quick else 8
+    mr = {"unix-epoll": 3 if quick else 4, "unix-select": 3, "tcp-epoll": 2 if quick else 3}
+    for tr, eng in (("unix", "epoll"), ("unix", "select"), ("tcp", "epoll")):
+        jobs.append(("pipe:%s-%s" % (tr, eng), [pipe, tr, eng, str(depth), str(mr[tr + "-" + eng])]))
     # (1) parser half, engine I
-    nsplit = 8 if quick else 12
+    nsplit, nbytes, nmut = 8, 3, 2
     for s in range(nsplit):
         jobs.append(("split:%d" % s, [parser, "split", str(s), str(nsplit), "0" if quick else "1"]))
-    nbytes = 3 if quick else 6
     for s in range(nbytes):
         jobs.append(("bytes:%d" % s, [parser, "bytes", str(s), str(nbytes), "5" if quick else "6"]))
-    for s in range(3):
-        jobs.append(("mut:%d" % s, [parser, "mut", str(s), "3", "80" if quick else "400"]))
+    for s in range(nmut):
+        jobs.append(("mut:%d" % s, [parser, "mut", str(s), str(nmut), "80" if quick else "400"]))
     if args.only:
         jobs = [j for j in jobs if j[0] == args.only or j[0].split(":")[0] == args.only]
     os.makedirs(vf.BUILD + "/C12/sock", exist_ok=True)
     env = {"VERIF_DEADLINE_S": str(dl), "VERIF_WORKERS": "4" if quick else "5", "C12_SOCK_DIR": vf.BUILD + "/C12/sock"}
     vf.run_procs(res, jobs, env=env, log=log, jobs=16)
-    vf.finish(PID, tier, res, t0,
-              rule="(I) real RequestParser fed like Server::Impl::onTcpReceived (consume returned count, re-present the rest with the next segment): "
-                   "(a) request grammar {GET,POST,DELETE} x 3 targets x HTTP/1.0|1.1 x 5 header sets (0-2 headers, Content-Length always, first or last) x body 0/1/5 = 270 requests; "
-                   "1-request streams: all, every split with <=%d cuts; 2-request streams (%s) and 3-request streams (covering subset^3): every split with <=2 cuts; every uniform chunk size incl. byte-by-byte; "
-                   "oracle = request sequence (method,target,version,headers,body) equal to the unsplit stream and to the generator, parse() return <= size given; "
-                   "(b) every byte string of length <=%d over {G,E,T,P,SP,/,:,CR,LF,H,1,.,0,x} behind 7 valid prefixes (one segment and prefix|bytes), "
-                   "185 single-field mutations of a valid request x 3 contexts x every 1-cut (2-cut if <=%d bytes) split: no exception, ASan/UBSan clean, feed loop terminates. "
-                   "(H) real http::server::Server + TcpServer + loop (epoll, select) over a real unix-domain / loopback TCP connection, single-threaded, fork per history: "
-                   "BFS over histories of depth <=%d with <=%d requests of: request(kind keep-alive|Connection: close|HTTP/1.0, handler completes in the callback or 1|2 loop passes later, "
-                   "sent alone | glued to the next request in one segment | cut in two segments), and loop passes; "
-                   "oracle after settling: one response per delivered request, in request order (tagged bodies), nothing after the response to the closing request, EOF after it"
-                   % (2 if quick else 3, "covering subset^2" if quick else "all x covering subset both ways", 5 if quick else 6, 80 if quick else 400, depth, maxreq),
+    rule = (
+        "(I) real RequestParser fed like Server::Impl::onTcpReceived (consume the returned count, re-present the rest together with the next segment). "
+        "(a) request grammar {GET,POST,DELETE} x 3 targets (one with a query, one with a fragment) x HTTP/1.0|1.1 x 5 header sets (0-2 headers, Content-Length always present, first or last) "
+        "x body length 0/1/5 = 270 requests; 1-request streams: all 270, every split with <=%d cuts; 2-request streams (%s) and 3-request streams (covering subset^3): every split with <=2 cuts; "
+        "every uniform chunk size incl. byte-by-byte; oracle = request sequence (method,target,version,headers,body) equal to the unsplit stream and to the generator, parse() return <= size given. "
+        "(b) every byte string of length <=%d over {G,E,T,P,SP,/,:,CR,LF,H,1,.,0,x} behind 7 valid prefixes (one segment, and prefix|bytes); 185 single-field mutations of a valid request "
+        "x 3 contexts x every 1-cut split (2-cut if <=%d bytes) + uniform chunks: no exception escapes, ASan/UBSan clean, feed loop and parse() terminate. "
+        "(H) real http::server::Server + TcpServer + loop over a real connection, single-threaded, fork per history (ASan/UBSan): unix-domain socket on epoll and select, loopback TCP on epoll; "
+        "BFS (canonical state = Connection bookkeeping, parser state, buffers, write event, pending handlers) over histories of depth <=%d with <=%d/%d/%d requests of: "
+        "request(keep-alive | Connection: close | HTTP/1.0; handler completes in the callback or 1|2 loop passes later; sent alone | glued to the next request in one segment | "
+        "cut in two segments | cut inside the method token), malformed request (non-numeric Content-Length | unknown method; crash/hang freedom only), loop pass. "
+        "Oracle after settling: every request handed to the handler is the one sent, handed once and in order; exactly one response per delivered request in request order (tagged bodies); "
+        "nothing after the response to the closing request; EOF after it; every request up to the closing one reaches the handler"
+        % (2 if quick else 3, "covering subset^2" if quick else "all x covering subset, both orders", 5 if quick else 6, 80 if quick else 400,
+           depth, mr["unix-epoll"], mr["unix-select"], mr["tcp-epoll"]))
+    vf.finish(PID, tier, res, t0, rule=rule,
               assumptions=["every request of a segmentation-independence stream declares Content-Length; canonical header spelling (DESIGN 1.7)",
                            "the client writes a segment, then the loop runs one pass; segments written without a pass in between coalesce into one receive",
-                           "handlers complete on the loop thread (the shared Context is released from a loop callback)",
-                           "an idle loop pass is ended by an interposed epoll_wait/select (zero timeout) instead of blocking"])
+                           "handlers complete on the loop thread: the shared Context is released from a runNext callback of the pass in which it is due",
+                           "an idle loop pass is ended by an interposed epoll_wait/select (zero timeout) instead of blocking",
+                           "the client never closes or half-closes its side during a history; responses are small (no partial socket writes)"])
